@@ -36,7 +36,11 @@ THEOREMS = ["PoissonLL.stat_eq_sum_logpmf", "PoissonLL.jointLL_eq_sum_logpmf", "
             "PoissonTest.observed_arrays_of_one_matrix", "PoissonTest.public_observed_eq_testStat",
             "PoissonTest.stat_unnorm_scaling", "PoissonTest.stat_S_depends_only_on_spatial_sums",
             "PoissonTest.stat_M_depends_only_on_magnitude_sums", "PoissonTest.poissonLogLikelihood_eq_logPmf",
-            "PoissonTest.stat_eq_sum_poissonLogLikelihood"]
+            "PoissonTest.stat_eq_sum_poissonLogLikelihood",
+            # round 5 (Properties/C05_Session.lean): histories on shared objects
+            "PoissonSession.eval_preserves_observables", "PoissonSession.evaluations_irrelevant",
+            "PoissonSession.scale_absolute", "PoissonSession.data_after_scale", "PoissonSession.new_forecast_rebinds",
+            "PoissonSession.test_binds_region", "PoissonSession.runOps_test_head"]
 TRUSTED = ["Lean 4.33 kernel", "axioms: propext, Classical.choice, Quot.sound at most",
            "Real.log / Real.exp / Nat.factorial stand for numpy.log, scipy.special.loggamma(n+1) (RealOps); rounding of "
            "these functions and of float sums is not modelled, the Float instance is compared numerically on every run",
@@ -60,12 +64,9 @@ RULE = ("random gridded forecasts of shape (1..40)x(1..8), rates 10^U(-12,3) (cl
         "some bin holds >= 2 events and N_obs != N_fore; distinct by (rate bits, counts).")
 
 MODES = ("L", "CL", "S", "M")
-# input classes on which the UNCHANGED code does not deliver a statistic although its own fallback code says it means to
-# (see notes/C05.md "Observed"): kept out of the verdict until decided; the calls are counted, not made
-AWAITING_DECISION = ["catalog-without-region: likelihood_test / conditional_likelihood_test (AttributeError; the "
-                     "`except CSEPCatalogException` fallback at poisson_evaluations.py:193-196, 415-418 never fires)",
-                     "catalog-with-spatial-only-region: likelihood_test / conditional_likelihood_test (CSEPCatalogException "
-                     "from spatial_magnitude_counts; same dead fallback)"]
+# input classes on which the unchanged code misbehaves and whose treatment is undecided: none at present (the region
+# fallback of the L / CL tests was repaired in /repo, D40, and is part of the generators now)
+AWAITING_DECISION = []
 # budget of the chained Lean op (Soft64 weights + placement are exact rational arithmetic): bins * events * simulations
 CHAIN_BUDGET = 12000
 # memory layouts of the forecast's 2-D rate array (same values, same shape): C-contiguous, Fortran-ordered, the transposed
@@ -169,7 +170,7 @@ def _oracle(rates, counts, normalise):
 def _gen_spec(rng, tier):
     ns = rng.choice([1, 1, 2, 3, 5, 8, 13, 20, 40, rng.randint(1, 40), rng.randint(1, 40)])
     nm = rng.choice([1, 1, 2, 3, 8, rng.randint(1, 8)])
-    cls = rng.choice(["wide", "wide", "wide", "tiny", "huge", "near1", "mixed-extremes"])
+    cls = rng.choice(["wide", "wide", "wide", "tiny", "huge", "near1", "mixed-extremes", "subeps"])
     zfrac = rng.choice([0.0, 0.0, rng.uniform(0, 0.2), 0.2])
     g = numpy.random.default_rng(rng.randrange(2 ** 32))
     if cls == "wide":
@@ -180,6 +181,9 @@ def _gen_spec(rng, tier):
         data = 10.0 ** g.uniform(1, 3, size=(ns, nm))
     elif cls == "near1":
         data = 10.0 ** g.uniform(-1, 1, size=(ns, nm))
+    elif cls == "subeps":
+        # positive rates far below machine epsilon (1e-300 .. 1e-8) next to ordinary rates
+        data = numpy.where(g.random((ns, nm)) < 0.4, 10.0 ** g.uniform(-300, -8, size=(ns, nm)), 10.0 ** g.uniform(-1, 1, size=(ns, nm)))
     else:
         data = numpy.where(g.random((ns, nm)) < 0.5, 1e-12, 1e3) * g.choice([1.0, 1.0, 0.999999], size=(ns, nm))
     data = numpy.where(g.random((ns, nm)) < zfrac, 0.0, data)
@@ -260,6 +264,7 @@ def _gen_spec(rng, tier):
         spec["fscale"] = None
     spec["long_run"] = rng.random() < (0.02 if tier == "quick" else 0.01)
     spec["dup_time"] = rng.random() < 0.5
+    spec["open_far"] = rng.choice([4.0, 4.0, 60.0, 1000.0])       # how far above the last edge an open-bin event may lie (bin widths)
     # after the five calls: re-scale the SAME forecast object and test again (state kept on the forecast between calls)
     spec["rescale_after"] = rng.choice([None] * 6 + [0.5, 3.0, 7.0]) if dtype == "float64" else None
     return spec
@@ -301,7 +306,7 @@ def _build(spec):
         lat = origins[i, 1] + dh * fy
         mag = mags[j] + spec["dm"] * fm
         if spec.get("open_mag") and j == nm - 1:
-            mag = mags[j] + spec["dm"] * (1.0 + 4.0 * fm)   # the last magnitude bin is open-ended
+            mag = mags[j] + spec["dm"] * (1.0 + spec.get("open_far", 4.0) * fm)   # the last magnitude bin is open-ended
         if len(e) > 5:
             # an event a little below the upper edge of its magnitude bin / cell (or exactly on the lower magnitude edge):
             # by the half-open bins [m_k, m_k+1), [x, x + dh) it belongs to bin (i, j) in every test
@@ -413,12 +418,16 @@ def _eval_case(run, drv, pending, spec, tag="gen"):
     run.count(f"catalog-region-{creg or ('same' if spec['same_region'] else 'copy')}")
     run.count(f"dtype-{spec.get('dtype', 'float64')}")
     if creg == "none":
-        # a catalog bound to no region: only the M-test is defined (S needs a region by design; L / CL: AWAITING_DECISION)
-        calls = [("M", "inject")]
-        run.count("awaiting-decision-skipped", 2)
+        # a catalog bound to no region: the M-test needs none; the L / CL tests bind the forecast's region to the catalog
+        # (D40) — afterwards the S-test works on the same catalog object too
+        first = [("CL", "inject"), ("L", "inject1")][::1 if spec["rn_seed"] % 2 else -1]
+        calls = [("M", "inject")] + first + [("BOUND", None), ("S", "inject"), ("L", "seed")]
     elif creg == "spatial-only":
-        calls = [("S", "inject"), ("M", "inject")]
-        run.count("awaiting-decision-skipped", 2)
+        # a region without magnitudes: S and M work as they are, L / CL replace it by the forecast's region (D40)
+        first = [("CL", "inject"), ("L", "inject1")][::1 if spec["rn_seed"] % 2 else -1]
+        calls = [("S", "inject"), ("M", "inject")] + first + [("BOUND", None), ("S", "inject"), ("L", "seed")]
+    if creg is None and spec["rn_seed"] % 3 == 0:
+        calls.append((("CL", "S", "M")[spec["l_seed"] % 3], "seed"))
     if spec.get("long_run"):
         calls.append((("CL", "S", "M")[spec["rn_seed"] % 3] if creg is None else "M", "long"))
     if spec.get("rescale_after") and creg is None:
@@ -429,6 +438,16 @@ def _eval_case(run, drv, pending, spec, tag="gen"):
         run.count("duplicate-events", _BUILD_INFO["duplicates"])
     evtxt = ",".join(f"{e[0]}:{e[1]}" for e in spec["events"]) if spec["events"] else "-"
     for mode, how in calls:
+        if mode == "BOUND":
+            # side effect of the L / CL tests on a catalog without a space-magnitude region: the forecast's region is bound
+            reg = getattr(cat, "region", None)
+            ok = reg is not None and getattr(reg, "magnitudes", None) is not None and \
+                numpy.array_equal(numpy.asarray(reg.magnitudes, dtype=float), numpy.asarray(fore.magnitudes, dtype=float))
+            if not ok:
+                run.oracle_failure(case, "after likelihood_test / conditional_likelihood_test the observed catalog is not bound "
+                                         "to the forecast's space-magnitude region")
+            run.count("region-bound-by-test")
+            continue
         if mode == "RESCALE":
             fore.scale(how)                                   # GriddedDataSet.scale: data = _data * how from now on
             data = numpy.array(fore.data, dtype=float)
@@ -463,12 +482,15 @@ def _eval_case(run, drv, pending, spec, tag="gen"):
                     sims = [_sim_counts(rates1d, rn[0, :])]
                     draws_txt, nsim_call = str(n1), 1
                 else:
-                    if float(data.sum()) * nsim > 400000:
+                    # default random path (no injected numbers): the legacy stream is re-created from the seed —
+                    # L: poisson(N_fore) then rand(n) per simulation; conditional tests: rand(N_obs) per simulation
+                    nsim_call = nsim if mode == "L" else max(nsim, 2)
+                    if mode == "L" and float(data.sum()) * nsim_call > 400000:
                         continue
-                    res = tests[mode](fore, cat, num_simulations=nsim, seed=spec["l_seed"])
+                    res = tests[mode](fore, cat, num_simulations=nsim_call, seed=spec["l_seed"])
                     numpy.random.seed(spec["l_seed"])
-                    for _ in range(nsim):
-                        nk = int(numpy.random.poisson(numpy.sum(data)))
+                    for _ in range(nsim_call):
+                        nk = int(numpy.random.poisson(numpy.sum(data))) if mode == "L" else n
                         sims.append(_sim_counts(rates1d, numpy.random.rand(nk)))
         except Exception as e:  # the property promises a value for every forecast/catalog in its domain
             run.oracle_failure(case, f"{mode}-test ({how}) raised {type(e).__name__}: {e}")
@@ -526,8 +548,56 @@ def _eval_case(run, drv, pending, spec, tag="gen"):
                 run.count("chain-compared")
             else:
                 run.count("chain-skipped-budget")
-    if creg != "none":   # the per-cell map needs the catalog's spatial counts
+    if creg is None and spec["rn_seed"] % 7 == 0 and data.size <= 400:
+        _array_level(run, drv, pending, case, spec, data, cnt, g)
+    if creg != "none" or getattr(cat, "region", None) is not None:   # the per-cell map needs the catalog's spatial counts
         _cells_check(run, drv, pending, case, fore, cat, data, cnt)
+
+
+def _array_level(run, drv, pending, case, spec, data, cnt, g):
+    """`_poisson_likelihood_test` called directly with every combination of its two documented flags (the public tests use
+    three of the four); the statistic is normalised exactly when BOTH are set"""
+    from csep.core import poisson_evaluations as pe
+    n, rates, counts = int(cnt.sum()), data.ravel(), cnt.ravel()
+    for u, nl in ((True, True), (False, True), (True, False), (False, False)):
+        if u:
+            nsim_call, draws, kw = spec["nsim"], "-", dict(seed=None)
+            rn = g.random((nsim_call, n))
+        else:
+            numpy.random.seed(spec["l_seed"])
+            n1 = int(numpy.random.poisson(numpy.sum(data)))
+            if n1 > 20000:
+                continue
+            nsim_call, draws, kw = 1, str(n1), dict(seed=spec["l_seed"])
+            rn = g.random((1, n1))
+        label = f"_poisson_likelihood_test(use_observed_counts={u}, normalize_likelihood={nl})"
+        try:
+            qs, obs, td = pe._poisson_likelihood_test(data.copy(), cnt.astype(float), num_simulations=nsim_call, random_numbers=rn,
+                                                      use_observed_counts=u, normalize_likelihood=nl, verbose=False, **kw)
+            obs, td, qs = float(obs), [float(v) for v in td], float(qs)
+        except Exception as e:
+            run.oracle_failure(case, f"{label} raised {type(e).__name__}: {e}")
+            continue
+        run.count(f"array-level-u{int(u)}-n{int(nl)}")
+        sims = [_sim_counts(rates, rn[k, :]) for k in range(nsim_call)]
+        if len(td) != len(sims):
+            run.oracle_failure(case, f"{label}: {len(td)} simulated entries for {len(sims)} simulations")
+            continue
+        impl_vals, scales = [], []
+        for name, c1, val in [("observed", counts, obs)] + [(f"simulated[{k}]", sims[k], td[k]) for k in range(len(sims))]:
+            ref, scale, zero_hit = _oracle(rates.tolist(), c1, u and nl)
+            impl_vals.append(val)
+            scales.append(scale)
+            if (val == -math.inf) != zero_hit or (val != -math.inf and not _close(val, ref, scale)):
+                run.oracle_failure(case, f"{label} {name}: value {val!r} != sum of log pmf {ref!r}")
+        if len(rates) * max(1, rn.shape[1]) * rn.shape[0] <= CHAIN_BUDGET:
+            rowtxt = ";".join(",".join(_bits(x) for x in row) for row in rn) if rn.shape[1] else "-"
+            i = drv.ask(f"c05_run {int(u)} {int(nl)} {','.join(_bits(x) for x in rates)} {','.join(str(int(c)) for c in counts)} "
+                        f"{draws} {nsim_call} {rowtxt}")
+            gap = min([abs(v - obs) for v in td if not math.isinf(v - obs)] or [math.inf])
+            pending.append((case, f"u{int(u)}n{int(nl)}", "array-level", i, impl_vals, scales,
+                            dict(sims=[[int(c) for c in s1] for s1 in sims], quantile=qs, nsim=len(td),
+                                 near_tie=gap <= 1e-7 * max(scales + [1.0]))))
 
 
 def _cells_check(run, drv, pending, case, fore, cat, data, cnt):
@@ -565,7 +635,20 @@ def _cells_check(run, drv, pending, case, fore, cat, data, cnt):
 
 
 def _flush_chain(run, case, mode, how, line, impl_vals, scales, extra):
-    """chained model: `stats|simulated arrays|k:n`"""
+    """chained model: `stats|simulated arrays|k:n`; session model: one value per test step of the history"""
+    if "session_labels" in extra:
+        toks = line.split(" ") if line != "-" else []
+        model = [(-math.inf if t == "ninf" else _unbits(t)) if (t == "ninf" or t.isdigit()) else None for t in toks]
+        if len(model) != len(impl_vals):
+            run.mismatch(dict(case, mode=mode), dict(tests=len(impl_vals)), dict(tests=len(model), line=line[:200]))
+            return
+        run.count("session-history-compared-with-model")
+        run.count("session-tests-compared-with-model", len(model))
+        for lab, v, m, sc in zip(extra["session_labels"], impl_vals, model, scales):
+            if m is None or not _close(v, m, sc):
+                run.mismatch(dict(case, mode=mode, how=lab), repr(v), repr(m))
+                return
+        return
     parts = line.split("|")
     if len(parts) != 3:
         run.mismatch(dict(case, mode=mode, how=how), dict(values=[repr(v) for v in impl_vals]), line)
@@ -593,7 +676,10 @@ def _flush(run, drv, pending):
     out = drv.run()
     for case, mode, how, i, impl_vals, scales, extra in pending:
         if extra is not None:
-            _flush_chain(run, case, mode, how, out[i], impl_vals, scales, extra)
+            try:
+                _flush_chain(run, case, mode, how, out[i], impl_vals, scales, extra)
+            except Exception as e:
+                run.oracle_failure(case, f"{mode}/{how}: output could not be compared with the model ({type(e).__name__}: {e})")
             continue
         toks = out[i].replace(",", " ").split(" ")
         model = [(-math.inf if t == "ninf" else _unbits(t)) if (t == "ninf" or t.isdigit()) else None for t in toks]
@@ -609,16 +695,41 @@ def _flush(run, drv, pending):
     pending.clear()
 
 
+def _guarded_eval(run, drv, pending, spec, tag="gen"):
+    """a harness crash is a missed detection: whatever goes wrong while implementation outputs are processed is reported as a
+    deviation with the case as replay"""
+    try:
+        _eval_case(run, drv, pending, spec, tag=tag)
+    except (KeyboardInterrupt, SystemExit):
+        raise
+    except Exception as e:
+        run.oracle_failure(dict(spec=spec, tag=tag), f"output of the implementation could not be processed "
+                                                     f"({type(e).__name__}: {str(e)[:200]})")
+
+
 def run(run, rng, tier):
     drv, pending = Driver(), []
-    n_cases = 1300 if tier == "quick" else 18000
+    n_cases = 1100 if tier == "quick" else 16000
     # fixed boundary cases first
     for spec in _corpus_specs():
-        _eval_case(run, drv, pending, spec, tag="corpus")
+        _guarded_eval(run, drv, pending, spec, tag="corpus")
     for spec in _fixed_specs():
-        _eval_case(run, drv, pending, spec, tag="fixed")
+        _guarded_eval(run, drv, pending, spec, tag="fixed")
     for k in range(n_cases):
-        _eval_case(run, drv, pending, _gen_spec(rng, tier))
+        _guarded_eval(run, drv, pending, _gen_spec(rng, tier))
+        if len(pending) >= 400:
+            _flush(run, drv, pending)
+            drv = Driver()
+    _flush(run, drv, pending)
+    # histories on shared objects (harness/c05_session.py)
+    from . import c05_session
+    drv = Driver()
+    for k in range(70 if tier == "quick" else 900):
+        spec = c05_session.gen_session(rng, tier)
+        try:
+            c05_session.eval_session(run, drv, pending, spec)
+        except Exception as e:   # a harness crash is a missed detection: report with the session as replay
+            run.oracle_failure(dict(session=spec), f"session could not be evaluated ({type(e).__name__}: {str(e)[:200]})")
         if len(pending) >= 400:
             _flush(run, drv, pending)
             drv = Driver()
@@ -656,12 +767,21 @@ def _fixed_specs():
         spec([[0.0, 0.0], [2.0, 3.0]], [(0, 1), (1, 1)]),               # zero spatial marginal holds an event
         spec([[1e-12, 1e3], [1e3, 1e-12]], [(0, 0)] * 40),
         spec([[0.3, 0.7, 0.0]], []),
+        # sizes: more than 65535 events in ONE bin (and in the catalog); more than 65536 bins (not a multiple of 65536)
+        spec([[1000.0, 3.0], [5.0, 70000.0]], [(1, 1)] * 70001 + [(0, 0)] * 3, nsim=1, rn_seed=3),
+        spec([[0.5 if (k % 7 == 0 and j == 3) else 1e-3 for j in range(7)] for k in range(10001)],
+             [(k * 13 % 10001, k % 7) for k in range(40)], nx=100, nsim=1, rn_seed=7),
     ]
 
 
 def replay(run, payload):
     case = payload["case"]
-    spec = case["spec"] if "spec" in case else case
     drv, pending = Driver(), []
+    if "session" in case:
+        from . import c05_session
+        c05_session.eval_session(run, drv, pending, case["session"], tag="replay")
+        _flush(run, drv, pending)
+        return
+    spec = case["spec"] if "spec" in case else case
     _eval_case(run, drv, pending, spec, tag="replay")
     _flush(run, drv, pending)
